@@ -4,6 +4,10 @@ import json, os
 HERE = os.path.dirname(os.path.dirname(os.path.abspath(__file__)))
 
 CHECKS = {
+ 'C02': dict(level='model_checking', design='2/C02',
+   technique='exhaustive enumeration of algorithm configurations x payload lengths against an independent RFC 4253 codec (refpeer), plus exhaustive bounded enumeration of stream segmentations of a real<->real session on the controlled loop',
+   text='Every (kex | cipher x MAC x compression) configuration refpeer implements is run in both roles with channel-data payloads of every length 0..4*blocksize+8 and around 256/32768; refpeer derives its own keys and verifies MAC/tag, sequence numbers, padding >= 4, alignment and the exact payload sequence. Every single split point of both byte streams of a complete session, every uniform chunk size 1..67 and pairs of splits around packet headers are replayed and must give the unsegmented observation. /usr/bin/ssh is run against an asyncssh server as a second independent decoder.',
+   note='cryptography/OpenSSL primitives shared with asyncssh (composition independent); kex/cipher/MAC families refpeer lacks (curve448, mlkem, rsa kex, umac, blowfish/cast/seed/arcfour) are listed as uncovered in the evidence.'),
  'C07': dict(level='model_checking', design='2/C07',
    technique='explicit-state BFS over operation/delivery histories of the real client<->server channel code on a hand-stepped event loop, FIFO stream reference model',
    text='Every history of channel writes (sizes around the packet/window limits), writelines, write_eof, pause/resume and single-packet deliveries up to the stated depth, for each (window, packet size, encoding, #channels) configuration, is executed on real SSHClientConnection/SSHServerConnection objects; in every reached state delivered data must be a prefix of written data per (channel, datatype), and after draining it must be equal with EOF iff sent, once, after the data.',
